@@ -67,6 +67,18 @@ pub struct Case {
     /// compilation: resolution must not depend on what was resolved before
     #[serde(default)]
     pub two: Option<Two>,
+    /// ANOTHER load (url `v`, same kind) written before or after the judged one in the same importer:
+    /// what an earlier load found, and where, must not influence a later one
+    #[serde(default)]
+    pub other: Option<Other>,
+}
+
+#[derive(Clone, Debug, Serialize, Deserialize, PartialEq)]
+pub struct Other {
+    /// candidate files of url `v` that exist: (location, index into the candidate list of `v`)
+    pub present: Vec<(Loc, usize)>,
+    /// written before the judged load
+    pub before: bool,
 }
 
 #[derive(Clone, Debug, Serialize, Deserialize, PartialEq)]
@@ -133,7 +145,36 @@ impl Case {
         }
         b
     }
+    /// The load of url `v` (markers `o { p: "<path>" }`), in the same form as the judged one.
+    fn other_stmt(&self) -> String {
+        match self.kind {
+            LoadKind::LoadCss => "@include meta.load-css(\"v\");\n".to_string(),
+            LoadKind::Use => "@use \"v\" as tv;\n".to_string(),
+            LoadKind::Forward => "@forward \"v\";\n".to_string(),
+            _ => "@import \"v\";\n".to_string(),
+        }
+    }
     fn load_stmt(&self) -> String {
+        if let Some(o) = &self.other {
+            let main = self.load_stmt_single();
+            let other = self.other_stmt();
+            return if self.kind == LoadKind::LoadCss {
+                // one `@use "sass:meta"` only, first
+                let call = main.replacen("@use \"sass:meta\";\n", "", 1);
+                if o.before {
+                    format!("@use \"sass:meta\";\n{other}{call}")
+                } else {
+                    format!("@use \"sass:meta\";\n{call}{other}")
+                }
+            } else if o.before {
+                format!("{other}{main}")
+            } else {
+                format!("{main}{other}")
+            };
+        }
+        self.load_stmt_single()
+    }
+    fn load_stmt_single(&self) -> String {
         if let Some(p) = &self.plain {
             return if self.plain_nested {
                 format!("n {{ @import {p}; }}\n")
@@ -182,6 +223,13 @@ impl Case {
         for (l, c) in &self.present {
             let p = self.path_of(*l, *c);
             fs.add_file(&p, format!("c {{ p: \"{p}\"; }}\n"));
+        }
+        if let Some(o) = &self.other {
+            let names = cand_names(self.kind, "v");
+            for (l, c) in &o.present {
+                let p = format!("{}/{}", self.loc_dir(*l), names[*c]);
+                fs.add_file(&p, format!("o {{ p: \"{p}\"; }}\n"));
+            }
         }
         for (l, k) in &self.foreign {
             let p = format!("{}/{}", self.loc_dir(*l), foreign_names(&self.url)[*k]);
@@ -297,6 +345,17 @@ fn observed_markers(css: &str) -> Vec<String> {
 }
 
 impl Case {
+    /// The other load (url `v`) as a case of its own.
+    fn as_other(&self) -> Case {
+        let mut c = self.clone();
+        c.url = "v".into();
+        c.present = self.other.as_ref().map(|o| o.present.clone()).unwrap_or_default();
+        c.present_dirs = vec![];
+        c.foreign = vec![];
+        c.other = None;
+        c.two = None;
+        c
+    }
     /// The case as the second importer sees it: its own directory instead of the first importer's.
     fn as_second(&self) -> (Case, Vec<usize>) {
         let two = self.two.clone().expect("two");
@@ -560,6 +619,42 @@ pub fn judge(case: &Case, stats: &mut Stats) -> (Judgement, Option<Outcome>) {
         if !case.foreign.is_empty() {
             stats.inc("probe:import_only_lookalike_ignored");
         }
+        // the other load of the same importer is judged on its own
+        if let (Some(oth), Res::Ok(css)) = (&case.other, &o.res) {
+            let sub = case.as_other();
+            let exp2 = sub.expected();
+            let obs2: Option<String> = css.find("o {").or_else(|| css.find("o{")).and_then(|p| {
+                let r = &css[p..];
+                let q = r.find('"')?;
+                let r2 = &r[q + 1..];
+                let e = r2.find('"')?;
+                Some(r2[..e].to_string())
+            });
+            stats.inc("probe:other_load_judged");
+            if !exp2.contains(&obs2) {
+                let cm = sub.candidate_major_within_round().contains(&obs2);
+                let decoy = obs2.as_ref().is_some_and(|w| case.subdir && (w.starts_with(&format!("lp1/{}/", case.sub())) || w.starts_with(&format!("lp2/{}/", case.sub()))));
+                return (
+                    Judgement::fail(
+                        "wrong_candidate",
+                        format!(
+                            "{base_sig} other_load=1 before={} unchanged_url_needed=0 observed_decoy={} candidate_major_within_round={}",
+                            u8::from(oth.before),
+                            u8::from(decoy),
+                            u8::from(cm && !decoy)
+                        ),
+                        format!(
+                            "a second load (`v`, written {} the judged one) resolved to {:?}, expected one of {:?}; judged load resolved to {:?}",
+                            if oth.before { "before" } else { "after" },
+                            obs2,
+                            exp2,
+                            obs
+                        ),
+                    ),
+                    Some(o),
+                );
+            }
+        }
         if let Some(Some(w)) = &obs_opt {
             if w.contains(".import.") {
                 stats.inc("probe:import_only_file_won");
@@ -714,6 +809,7 @@ pub fn case_for(index: u64, tier: Tier, rng: &mut Rng) -> (Case, &'static str) {
                 via: Via::Stub,
                 foreign: vec![],
                 two: None,
+                other: None,
             },
             "single_location_exhaustive",
         );
@@ -743,6 +839,7 @@ pub fn case_for(index: u64, tier: Tier, rng: &mut Rng) -> (Case, &'static str) {
                 via: Via::Stub,
                 foreign: vec![],
                 two: None,
+                other: None,
             },
             "plain_css_arm",
         );
@@ -772,6 +869,7 @@ pub fn case_for(index: u64, tier: Tier, rng: &mut Rng) -> (Case, &'static str) {
                 via: Via::Stub,
                 foreign: vec![],
                 two: None,
+                other: None,
             },
             "two_locations_use_exhaustive",
         );
@@ -840,7 +938,33 @@ pub fn case_for(index: u64, tier: Tier, rng: &mut Rng) -> (Case, &'static str) {
             }
         }
     }
-    let section = if two.is_some() { "two_importers_sampled" } else { "several_locations_sampled" };
+    // another load (url `v`) in the same importer, always resolvable: at least one candidate in
+    // a location that every reading searches
+    let other = if two.is_none() && !has_decoy && !crate::resolve::has_ext(&url) && rng.chance(1, 3) {
+        let n2 = cand_names(kind, "v").len();
+        let mut p2 = vec![];
+        for l in &locs {
+            if matches!(l, Loc::Base0) {
+                continue; // whether the root directory is searched is left open (R-c)
+            }
+            if rng.chance(1, 2) {
+                continue;
+            }
+            for c in 0..n2 {
+                if rng.below(8) < 2 {
+                    p2.push((*l, c));
+                }
+            }
+        }
+        if p2.is_empty() {
+            // the shape that matters most: found only in a load path
+            p2.push((Loc::Lp1, rng.usize(n2)));
+        }
+        Some(Other { present: p2, before: rng.chance(2, 3) })
+    } else {
+        None
+    };
+    let section = if two.is_some() { "two_importers_sampled" } else if other.is_some() { "two_loads_sampled" } else { "several_locations_sampled" };
     (
         Case {
             kind,
@@ -848,6 +972,7 @@ pub fn case_for(index: u64, tier: Tier, rng: &mut Rng) -> (Case, &'static str) {
             url,
             foreign,
             two,
+            other,
             present_dirs: {
                 let mut v = vec![];
                 if rng.chance(1, 5) {
@@ -1034,6 +1159,7 @@ impl Prop for C04 {
             "probe:judged_through_real_fsloader",
             "probe:judged_through_fsloader_over_simfs",
             "probe:two_importers_judged",
+            "probe:other_load_judged",
             "probe:two_importers_one_falls_back",
             "probe:import_only_lookalike_ignored",
             "probe:judged_through_cargoloader_over_simfs",
